@@ -5,6 +5,7 @@ import (
 
 	"mellium.im/xmpp/bin"
 	"mellium.im/xmpp/bookmarks"
+	"mellium.im/xmpp/crypto"
 	"mellium.im/xmpp/disco"
 	"mellium.im/xmpp/disco/info"
 	"mellium.im/xmpp/file"
@@ -105,6 +106,14 @@ func witnesses() map[string]func(c *core.Case) {
 			checkInfoHash(c, nil, nil, []form.Data{*form.New(form.Result, form.Hidden("FORM_TYPE", form.Value("urn:a")),
 				form.TextMulti("motd", form.Value("second line is b"), form.Value("a comes first after hashing")))}, "Hash")
 		},
+
+		// Date is written with Format(time.RFC3339) in the time's own zone: a TZD
+		// has no seconds, so an offset of -07:52:58 is written as -07:52 and the
+		// decoded instant is 58 seconds off
+		"codec:R:file.Meta:Date": witnessValue("file.Meta", &file.Meta{
+			Name: "a.txt", Date: time.Date(2002, 9, 10, 15, 15, 27, 0, time.FixedZone("LMT", -(7*3600+52*60+58))),
+			Hash: crypto.HashOutput{Hash: crypto.SHA256, Out: []byte{1, 2, 3}},
+		}),
 
 		// the extension's own xmlns attribute is passed through and the encoder
 		// adds another one
